@@ -28,8 +28,9 @@ INFO = {
         'I/O of the state bodies (scan, db open/close/archive, version tables, schedule.build, git, mail, sockets, svg) is stubbed; their control flow is real',
         'triggers are fired only through their real call sites (boot, dispatch tick, submit process, reset command, continuations) plus the FOREIGN event that tries every trigger the documented machine forbids in the current state',
         'tools.submit.automatic answers at once (time spent in gitting is one reactor turn)',
+        'the data base reports the end of an archive through its callback as a background step of its own (as the PostgreSQL back end does when pg_dump ends); completing it right after the archive thread gives the shelve behaviour',
     ],
-    'outside': ['real OS threads inside one background job', '_navel_gaze calling a trigger off the reactor thread', 'longer histories'],
+    'outside': ['real OS threads inside one background job', 'what a poller keeps in locals across iterations of its sleep loop (a poller is re-evaluated from its first line at every completion attempt)', '_navel_gaze calling a trigger off the reactor thread', 'longer histories'],
 }
 
 
